@@ -138,7 +138,8 @@ func checkC13(c *Case, st *Stats) string {
 		st.Class("unspecified")
 		return ""
 	}
-	accs, rerr, msg := accessorsOf(c, c.Document())
+	firstDoc := c.Document()
+	accs, rerr, msg := accessorsOf(c, firstDoc)
 	st.Eval(1)
 	if msg != "" {
 		return msg
@@ -221,6 +222,24 @@ func checkC13(c *Case, st *Stats) string {
 			return fmt.Sprintf("after Set and a direct update, accessor %d Get() = %s, want %q", i, JSONString(got), after)
 		}
 	}
+	// the accessors of the very first retrieval must still be bound to their own document after
+	// all the accessor-mode retrievals made since (their targets must not live in recycled storage)
+	if other, err := jsonpath.Retrieve("$..*", c.Document(), BuildConfig(nil, false, true)); err == nil {
+		_ = other
+	}
+	for i, a := range accs {
+		if want, ok := getAt(firstDoc, res.Nodes[i].Loc); ok && res.Nodes[i].HasLoc {
+			if got := a.Get(); !reflect.DeepEqual(got, want) {
+				return fmt.Sprintf("after later accessor-mode retrievals, accessor %d of the first retrieval (%s) Get() = %s, its document holds %s", i, locString(res.Nodes[i].Loc), JSONString(got), JSONString(want))
+			}
+		}
+	}
+	if n > 0 && res.Nodes[0].HasLoc && accs[0].Set != nil {
+		accs[0].Set("LATE-SET")
+		if got, _ := getAt(firstDoc, res.Nodes[0].Loc); got != "LATE-SET" {
+			return fmt.Sprintf("after later accessor-mode retrievals, Set through accessor 0 of the first retrieval did not write %s of its own document (it holds %s)", locString(res.Nodes[0].Loc), JSONString(got))
+		}
+	}
 	// history on one document
 	if n > 0 && len(c.Ops) > 0 {
 		doc := c.Document()
@@ -247,6 +266,10 @@ func checkC13(c *Case, st *Stats) string {
 				v = nil
 			default:
 				v = []interface{}{fmt.Sprintf("H%d", step)}
+			}
+			if step%3 == 1 {
+				// an unrelated accessor-mode retrieval in between recycles the library's pooled storage
+				_, _ = jsonpath.Retrieve("$..*", c.Document(), BuildConfig(nil, false, true))
 			}
 			if op.Kind == "set" {
 				as[i].Set(v)
